@@ -44,6 +44,14 @@ def alg_cases(tier, rng):
     return cases
 
 
+def pool_cases(tier):
+    """a subscribing task running on a pool thread while its handle is unsubscribed from another thread (also under C19 / C02):
+    once unsubscribe() has returned nothing is delivered, neither by the task nor by the subscription it produced"""
+    k = 10 if tier == "quick" else 60
+    return [("race1", "(case race1 sched_race %d)" % k, {"kind": "thread-pool", "len": 0}),
+            ("race2", "(case race2 unsub_race %d)" % k, {"kind": "thread-pool", "len": 0})]
+
+
 def timed_cases(tier, rng):
     """is_closed() sampled after every label."""
     cases = []
@@ -73,7 +81,7 @@ def run(tier, seed, replay=None):
     proof_stage(rep, "C17")
     if not build_stage(rep):
         return rep.finish()
-    cases = load_replay_case(replay) if replay else alg_cases(tier, rng) + timed_cases(tier, rng) + ileave2.cases(tier, rng, kinds=("hot",))
+    cases = load_replay_case(replay) if replay else alg_cases(tier, rng) + timed_cases(tier, rng) + ileave2.cases(tier, rng, kinds=("hot",)) + pool_cases(tier)
     res = correspond(rep, "C17", cases, "C17_closed_sound / C17_algebra_closed_sound / C17_late_additions / C17_closed_stable")
     xcheck.cross_check(rep, "C17", cases, res, 40 if tier == "quick" else 400)
     c = rep.coverage
